@@ -83,6 +83,8 @@ def mutations(rnd, img, n_mut):
     word substitutions, extensions, and unrelated random strings."""
     out = [("canon", img)]
     n = len(img)
+    if n <= 24:
+        out += [("prefix", img[:k]) for k in range(n)]       # short images: every prefix
     for _ in range(n_mut):
         r = rnd.random()
         b = bytearray(img)
@@ -130,7 +132,7 @@ def decode_worker(seed_, n_schemas, n_values, n_mut, extra):
     tracemalloc.start()
     try:
         for si in range(n_schemas):
-            defs = gen.gen_env(rnd)
+            defs = gen.gen_env_shared_sizer(rnd) if si % 4 == 1 else gen.gen_env(rnd)
             if si % 3 == 2:
                 gen.assign_shifts(rnd, defs)
             names = ["D%d_%d_T%d" % (seed_, si, i + 1) for i in range(len(defs))]
